@@ -57,13 +57,15 @@ def PySig.DefaultsOk (s : PySig) : Prop := mono false ((s.po ++ s.pp).map PParam
 def PySig.GoodDefaults (s : PySig) : Prop :=
   ∀ p ∈ s.po ++ s.pp ++ s.kw, ∀ d ∈ p.dflt, d.good = true
 
+def PySig.NoElideE (el : Ident → Bool) (s : PySig) : Prop :=
+  (∀ p ∈ s.pp, el p.name = false) ∧ (∀ p ∈ s.va, el p.name = false) ∧
+  (∀ p ∈ s.kw, el p.name = false) ∧ (∀ p ∈ s.ka, el p.name = false)
+
 /-- no parameter outside the `/` prefix has a name of the form `__x` -/
-def PySig.NoElide (s : PySig) : Prop :=
-  (∀ p ∈ s.pp, elide p.name = false) ∧ (∀ p ∈ s.va, elide p.name = false) ∧
-  (∀ p ∈ s.kw, elide p.name = false) ∧ (∀ p ∈ s.ka, elide p.name = false)
+def PySig.NoElide (s : PySig) : Prop := s.NoElideE elide
 
 instance (s : PySig) : Decidable s.DefaultsOk := by unfold PySig.DefaultsOk; infer_instance
-instance (s : PySig) : Decidable s.NoElide := by unfold PySig.NoElide; infer_instance
+instance (s : PySig) : Decidable s.NoElide := by unfold PySig.NoElide PySig.NoElideE; infer_instance
 instance (s : PySig) : Decidable s.GoodDefaults := by unfold PySig.GoodDefaults; infer_instance
 
 inductive PKind | posOnly | pos | varArg | kwOnly | kwArg
@@ -89,17 +91,21 @@ structure Arg where
   ann : Option String
   dflt : Option DExpr
 
-/-- `make_argument`: `pos_only` is the syntactic flag, or forced by `argument_elide_name` — for every kind -/
-def mkArg (k : AKind) (syntacticPO : Bool) (p : PParam) : Arg :=
-  { name := p.name, kind := k, posOnly := syntacticPO || elide p.name, ann := p.ann, dflt := p.dflt }
+/-- `make_argument`: `pos_only` is the syntactic flag, or forced by the name rule `el` — for every kind
+    (`el` = `elide` is the code; the parameter lets the proofs also cover "flag ignored", see `emit_magic`) -/
+def mkArgE (el : Ident → Bool) (k : AKind) (syntacticPO : Bool) (p : PParam) : Arg :=
+  { name := p.name, kind := k, posOnly := syntacticPO || el p.name, ann := p.ann, dflt := p.dflt }
 
-def mkVArg (k : AKind) (p : VParam) : Arg :=
-  { name := p.name, kind := k, posOnly := elide p.name, ann := p.ann, dflt := none }
+def mkVArgE (el : Ident → Bool) (k : AKind) (p : VParam) : Arg :=
+  { name := p.name, kind := k, posOnly := el p.name, ann := p.ann, dflt := none }
 
 /-- `transform_args` (order: positional, `*`, keyword-only, `**`) -/
-def PySig.toMypy (s : PySig) : List Arg :=
-  s.po.map (mkArg .pos true) ++ s.pp.map (mkArg .pos false) ++ s.va.toList.map (mkVArg .star) ++
-  s.kw.map (mkArg .named false) ++ s.ka.toList.map (mkVArg .star2)
+def PySig.toMypyE (el : Ident → Bool) (s : PySig) : List Arg :=
+  s.po.map (mkArgE el .pos true) ++ s.pp.map (mkArgE el .pos false) ++ s.va.toList.map (mkVArgE el .star) ++
+  s.kw.map (mkArgE el .named false) ++ s.ka.toList.map (mkVArgE el .star2)
+
+/-- what mypy's parser produces: the name rule is `argument_elide_name` -/
+def PySig.toMypy (s : PySig) : List Arg := s.toMypyE elide
 
 /-! ### the emitted side: one item per comma-separated piece of the `def` line -/
 
@@ -212,5 +218,17 @@ def Item.isParam : Item → Bool
 def Item.hasD : Item → Bool
   | .param _ _ d => d.isSome
   | _ => false
+
+/-- Python's `parameters` production, as a predicate on the emitted items:
+    `po* ["/"] pp* ["*args" | "*" kw+ | kw = ε] kw* ["**kwargs"]` with the compiler's rule on defaults. -/
+def GrammarShape (items : List Item) : Prop :=
+  ∃ (po slash pp star kw ka : List Item),
+    items = po ++ slash ++ pp ++ star ++ kw ++ ka ∧
+    (∀ x ∈ po ++ pp ++ kw, x.isParam = true) ∧
+    ((slash = [] ∧ po = []) ∨ (slash = [Item.slash] ∧ po ≠ [])) ∧                 -- `/` only after ≥ 1 positional-only
+    ((star = [] ∧ kw = []) ∨ (∃ n a, star = [Item.vararg n a]) ∨ (star = [Item.bareStar] ∧ kw ≠ [])) ∧  -- at most one `*`
+    (ka = [] ∨ ∃ n a, ka = [Item.kwarg n a]) ∧                                      -- at most one `**`, last
+    mono false ((po ++ pp).map Item.hasD) = true                                    -- no non-default after default
+
 
 end StubSig
